@@ -1,5 +1,5 @@
 #!/bin/bash
-# tools/seedin.sh CNN [checks] : take /tmp/seed/CNN/seed_out into seeded/S-CNN and confirm it
-id=$1; cd "$(dirname "$0")/.."
-mkdir -p seeded/S-$id && cp /tmp/seed/$id/seed_out/patch.diff /tmp/seed/$id/seed_out/demo.py /tmp/seed/$id/seed_out/notes.md seeded/S-$id/ && echo "{\"property\": \"$id\"}" > seeded/S-$id/meta.json
-tools/seedtest.py seeded/S-$id ${2:+--checks $2} > /tmp/seedres-$id.json 2>&1
+# tools/seedin.sh CNN [name] [checks] : take /tmp/seed/CNN/seed_out into seeded/<name> and confirm it
+id=$1; name=${2:-S-$id}; cd "$(dirname "$0")/.."
+mkdir -p seeded/$name && cp /tmp/seed/$id/seed_out/patch.diff /tmp/seed/$id/seed_out/demo.py /tmp/seed/$id/seed_out/notes.md seeded/$name/ && echo "{\"property\": \"$id\"}" > seeded/$name/meta.json
+tools/seedtest.py seeded/$name ${3:+--checks $3} > /tmp/seedres-$name.json 2>&1
